@@ -19,7 +19,132 @@ type qpt struct {
 
 func (q *qpt) Point() orb.Point { return q.p }
 
-func qid(p orb.Pointer) string { return strconv.Itoa(p.(*qpt).id) }
+// The family of orb.Pointer implementations the histories store and pass (op `histP`): the quantifier
+// of the property is over stored POINTERS, whatever their dynamic type.  The library may call
+// Point() on them and hand them to the caller's filter, nothing else: in particular it may not
+// compare two Pointer interface values (`==` panics for the kinds marked uncomparable), type-assert
+// them, or use them as map keys.
+type (
+	// a comparable value struct, value receiver
+	qval struct {
+		id int
+		p  orb.Point
+	}
+	// a value struct with a slice inside (like a record with tags): UNCOMPARABLE
+	qunc struct {
+		id  int
+		p   orb.Point
+		pad []byte
+	}
+	// Point() has a value receiver; stored as *qvr (kind 3: comparable pointer) and by value
+	// (kind 4: a map inside, like geojson.Feature: UNCOMPARABLE)
+	qvr struct {
+		id   int
+		p    orb.Point
+		tags map[string]int
+	}
+	// a struct that embeds a pointer (promoted method, the embedded pointer is nil-able)
+	qemb struct{ *qpt }
+	// a wrapper that holds another Pointer in an interface field: comparable for the compiler,
+	// but comparing two of them panics at run time when the inner dynamic type is uncomparable
+	qbox struct{ in orb.Pointer }
+	// nil-able kinds: slice {id, x, y}, map, func — all UNCOMPARABLE
+	qsl []float64
+	qmp map[string]float64
+	qfn func() (int, orb.Point)
+)
+
+func (q qval) Point() orb.Point { return q.p }
+func (q qunc) Point() orb.Point { return q.p }
+func (q qvr) Point() orb.Point  { return q.p }
+func (q qbox) Point() orb.Point { return q.in.Point() }
+func (q qsl) Point() orb.Point  { return orb.Point{q[1], q[2]} }
+func (q qmp) Point() orb.Point  { return orb.Point{q["x"], q["y"]} }
+func (q qfn) Point() orb.Point  { _, p := q(); return p }
+
+const c11PtrKinds = 11
+
+// mkPtr builds a pointer of the given kind of the family.
+func mkPtr(kind, id int, p orb.Point) orb.Pointer {
+	switch kind {
+	case 1:
+		return qval{id, p}
+	case 2:
+		return qunc{id, p, []byte{1, 2, 3}}
+	case 3:
+		return &qvr{id, p, nil}
+	case 4:
+		return qvr{id, p, map[string]int{"k": id}}
+	case 5:
+		return qemb{&qpt{id, p}}
+	case 6:
+		return qbox{qunc{id, p, nil}}
+	case 7:
+		return qsl{float64(id), p[0], p[1]}
+	case 8:
+		return qmp{"id": float64(id), "x": p[0], "y": p[1]}
+	case 9:
+		return qfn(func() (int, orb.Point) { return id, p })
+	case 10:
+		return qbox{&qpt{id, p}}
+	}
+	return &qpt{id, p}
+}
+
+// ptrMode is the first token of op `histP`: `P<k>` every pointer of the history (stored ones and the
+// probes handed to Remove) has kind k; `M<s>` mixed: the kind of a stored pointer follows from its id,
+// the kind of a Remove probe from the index of the operation.
+type ptrMode struct {
+	uniform bool
+	n       int
+}
+
+func parsePtrMode(t string) ptrMode {
+	if len(t) < 2 || (t[0] != 'P' && t[0] != 'M') {
+		panic("bad pointer mode " + t)
+	}
+	return ptrMode{t[0] == 'P', pi(t[1:])}
+}
+
+func (m ptrMode) kind(i int) int {
+	if m.uniform {
+		return m.n
+	}
+	k := (i*7 + m.n) % c11PtrKinds
+	if k < 0 {
+		k += c11PtrKinds
+	}
+	return k
+}
+
+func qidInt(p orb.Pointer) int {
+	switch v := p.(type) {
+	case *qpt:
+		return v.id
+	case qval:
+		return v.id
+	case qunc:
+		return v.id
+	case *qvr:
+		return v.id
+	case qvr:
+		return v.id
+	case qemb:
+		return v.qpt.id
+	case qbox:
+		return qidInt(v.in)
+	case qsl:
+		return int(v[0])
+	case qmp:
+		return int(v["id"])
+	case qfn:
+		id, _ := v()
+		return id
+	}
+	panic(fmt.Sprintf("pointer of a type the harness never stored: %T", p))
+}
+
+func qid(p orb.Pointer) string { return strconv.Itoa(qidInt(p)) }
 
 func qids(ps []orb.Pointer) string {
 	var sb strings.Builder
@@ -35,7 +160,7 @@ func modFilter(m, r int) quadtree.FilterFunc {
 	if m == 1 {
 		return nil
 	}
-	return func(p orb.Pointer) bool { return p.(*qpt).id%m == r }
+	return func(p orb.Pointer) bool { return qidInt(p)%m == r }
 }
 
 // c11Sentinel fills the caller-supplied result buffers ("dirty" buffers): it is never stored in a
@@ -60,14 +185,18 @@ func samePointBits(a, b orb.Point) bool {
 	return math.Float64bits(a[0]) == math.Float64bits(b[0]) && math.Float64bits(a[1]) == math.Float64bits(b[1])
 }
 
+// the elements behind the limit in the caller's limits array: never to be read or written by the library
+var c11LimSentinels = [3]float64{12345.678, -1, math.Inf(1)}
+
 // runHistory executes a history on a fresh tree; one result per op, then the tree dump.
 //
 //	a id pt            Add; the same id always denotes the SAME pointer object (added twice = a
 //	                   multiset with that pointer twice; re-added after removal = the same pointer again)
 //	an                 Add(nil)
-//	ri id pt           Remove(&{pt}, eq: same id)
-//	rp pt              Remove(&{pt}, nil)
-//	rm pt m r          Remove(&{pt}, eq: id%m==r)   (eq may accept many pointers at different distances)
+//	ri id pt           Remove(probe{pt}, eq: same id)
+//	rp pt              Remove(probe{pt}, nil)
+//	rs id pt           Remove(the pointer object with this id itself, nil)   (pt must be its point)
+//	rm pt m r          Remove(probe{pt}, eq: id%m==r)   (eq may accept many pointers at different distances)
 //	f pt               Find
 //	m pt m r           Matching(filter id%m==r)
 //	k pt k m r md      m==1: the wrapper KNearest, else KNearestMatching; k may be negative; nil buffer
@@ -75,24 +204,51 @@ func samePointBits(a, b orb.Point) bool {
 //	b lo hi m r        m==1: the wrapper InBound, else InBoundMatching; nil buffer
 //	bB lo hi m r l c   the same with a dirty non-nil buffer
 //
+// Pointers (stored ones and the probes given to Remove) are of the kinds `mode` selects.
+//
+// The distance limit of k / kB is passed the way a caller passes it who keeps its limits in a slice:
+// ONE array per history, `q.KNearest(buf, p, k, lims[:1]...)` (op index%5 == 4: `lims[:2]...`, a second
+// element the library must ignore; no limit and op index%3 == 0: `lims[:0]...`).  The harness stores a
+// limit into lims[0] only when the op's limit token differs from the token of the previous limited op,
+// and after EVERY k-nearest call compares the whole array bit for bit with what it stored: a
+// difference is reported behind the answer as `L! <index> <stored bits> <bits now>` (the driver's
+// clause `argument-mutated limit`).
+//
 // A panic of the library ends the history: the answers so far, then the token `panic`.
-func runHistory(r *tokReader) string {
+func runHistory(r *tokReader, mode ptrMode) string {
 	bnd := orb.Bound{Min: r.pt(), Max: r.pt()}
 	n := r.int()
 	q := quadtree.New(bnd)
 	res := make([]string, 0, n+1)
-	ptrs := map[int]*qpt{}
+	ptrs := map[int]orb.Pointer{}
+	ptsOf := map[int]orb.Point{}
+	lims := []float64{0, c11LimSentinels[0], c11LimSentinels[1], c11LimSentinels[2]}
+	limTok := ""
+	limsChanged := func() string {
+		want := [4]float64{0, c11LimSentinels[0], c11LimSentinels[1], c11LimSentinels[2]}
+		from := 1
+		if limTok != "" {
+			want[0] = pf(limTok)
+			from = 0
+		}
+		for i := from; i < 4; i++ {
+			if math.Float64bits(lims[i]) != math.Float64bits(want[i]) {
+				return fmt.Sprintf(" L! %d %s %s", i, fb(want[i]), fb(lims[i]))
+			}
+		}
+		return ""
+	}
 	countsOf := func() map[int]int {
 		m := map[int]int{}
 		for _, p := range q.VerifContents() {
-			m[p.(*qpt).id]++
+			m[qidInt(p)]++
 		}
 		return m
 	}
-	remove := func(p orb.Point, eq quadtree.FilterFunc) func() string {
+	remove := func(probe orb.Pointer, eq quadtree.FilterFunc) func() string {
 		return func() string {
 			before := countsOf()
-			ok := q.Remove(&qpt{-1, p}, eq)
+			ok := q.Remove(probe, eq)
 			if !ok {
 				return "0"
 			}
@@ -119,15 +275,20 @@ func runHistory(r *tokReader) string {
 		// the arguments are read outside guard(): a malformed case is a harness bug, not a library panic
 		var call func() string
 		switch op := r.next(); op {
-		case "a":
+		case "a", "rs":
 			id := r.int()
 			p := r.pt()
 			v := ptrs[id]
 			if v == nil {
-				v = &qpt{id, p}
+				v = mkPtr(mode.kind(id), id, p)
 				ptrs[id] = v
-			} else if !samePointBits(v.p, p) {
+				ptsOf[id] = p
+			} else if !samePointBits(ptsOf[id], p) {
 				return "badcase id-reused-with-another-point"
+			}
+			if op == "rs" {
+				call = remove(v, nil)
+				break
 			}
 			call = func() string {
 				if err := q.Add(v); err != nil {
@@ -144,13 +305,13 @@ func runHistory(r *tokReader) string {
 			}
 		case "ri":
 			id := r.int()
-			call = remove(r.pt(), func(p orb.Pointer) bool { return p.(*qpt).id == id })
+			call = remove(mkPtr(mode.kind(i), -1, r.pt()), func(p orb.Pointer) bool { return qidInt(p) == id })
 		case "rp":
-			call = remove(r.pt(), nil)
+			call = remove(mkPtr(mode.kind(i), -1, r.pt()), nil)
 		case "rm":
 			p := r.pt()
 			m, rr := r.int(), r.int()
-			call = remove(p, func(p orb.Pointer) bool { return p.(*qpt).id%m == rr })
+			call = remove(mkPtr(mode.kind(i), -1, p), func(p orb.Pointer) bool { return qidInt(p)%m == rr })
 		case "f":
 			p := r.pt()
 			call = func() string {
@@ -181,13 +342,26 @@ func runHistory(r *tokReader) string {
 			}
 			var lim []float64
 			if md != "-" {
-				lim = []float64{pf(md)}
+				pf(md) // a malformed token is a harness bug
+				if md != limTok {
+					lims[0] = pf(md)
+					limTok = md
+				}
+				lim = lims[:1]
+				if i%5 == 4 {
+					lim = lims[:2]
+				}
+			} else if i%3 == 0 {
+				lim = lims[:0]
 			}
 			call = func() string {
+				var out string
 				if m == 1 {
-					return qids(q.KNearest(buf, p, k, lim...))
+					out = qids(q.KNearest(buf, p, k, lim...))
+				} else {
+					out = qids(q.KNearestMatching(buf, p, k, modFilter(m, rr), lim...))
 				}
-				return qids(q.KNearestMatching(buf, p, k, modFilter(m, rr), lim...))
+				return out + limsChanged()
 			}
 		case "b", "bB":
 			b := orb.Bound{Min: r.pt(), Max: r.pt()}
@@ -220,7 +394,9 @@ func runC11(op string, in []string) string {
 	return guard(func() string {
 		switch op {
 		case "hist":
-			return runHistory(&tokReader{t: in})
+			return runHistory(&tokReader{t: in}, ptrMode{true, 0})
+		case "histP": // the same with the pointer kinds named by the first token
+			return runHistory(&tokReader{t: in[1:]}, parsePtrMode(in[0]))
 		case "trunc": // marker emitted by the generator when an exhaustive enumeration was cut short
 			return "-"
 		}
@@ -237,6 +413,8 @@ type histGen struct {
 	// used by opX only (C11): every pointer ever created, id -> point tokens
 	ever    map[int]string
 	everIDs []int
+	lastK   string // the previous k-nearest op, verbatim (re-issued now and then: same limit slice, same answer)
+	lastLim string // the limit token of the previous limited k-nearest op
 }
 
 func (h *histGen) pt() orb.Point {
@@ -285,7 +463,7 @@ func (h *histGen) op() string {
 		}
 		k := r.Intn(6)
 		if r.Intn(12) == 0 { // large k: more than the tree holds, heaps beyond any small-size fast path
-			k = []int{16, 63, 64, 65, 100, 300}[r.Intn(6)]
+			k = []int{16, 63, 64, 65, 100, 300, 127, 128, 129, 255, 256, 257, 1000}[r.Intn(13)]
 		}
 		return fmt.Sprintf("k %s %d %d %d %s", fpt(h.pt()), k, m, r.Intn(m), md)
 	default:
@@ -339,6 +517,11 @@ func (h *histGen) opX() string {
 		return fmt.Sprintf("rm %s %d %d", fpt(h.pt()), m, r.Intn(m))
 	case x < 18:
 		return "an"
+	case x < 21 && h.lastK != "": // the previous k-nearest call once more: same arguments, same limits slice
+		return h.lastK
+	case x < 24 && len(h.everIDs) > 0: // Remove(the pointer object itself, nil): stored, stored twice, or removed earlier
+		id := h.everIDs[r.Intn(len(h.everIDs))]
+		return fmt.Sprintf("rs %d %s", id, h.ever[id])
 	}
 	o := h.op()
 	f := strings.Fields(o)
@@ -368,11 +551,19 @@ func (h *histGen) opX() string {
 				f[6] = fb(-r.Float64() * 9)
 			}
 		}
+		// runs of calls with the same limit: the caller's limits slice is then not stored to in between
+		if f[6] != "-" {
+			if h.lastLim != "" && r.Intn(3) == 0 {
+				f[6] = h.lastLim
+			}
+			h.lastLim = f[6]
+		}
 		if r.Intn(2) == 0 {
 			f[0] = "kB"
 			f = append(f, h.bufSpec())
 		}
 		o = strings.Join(f, " ")
+		h.lastK = o
 	case "b":
 		// f: b x0 y0 x1 y1 m r
 		if r.Intn(6) == 0 { // inverted in one or both axes (an empty box)
@@ -402,7 +593,10 @@ func (b c11Bound) tok() string { return fpt(b.lo) + " " + fpt(b.hi) }
 
 // coord draws a coordinate related to [lo,hi]: the ends, the midlines of the first three levels
 // (computed with the library's own (l+r)/2), a random interior value, or a value just outside.
-func c11Coord(r interface{ Intn(int) int; Float64() float64 }, lo, hi float64) float64 {
+func c11Coord(r interface {
+	Intn(int) int
+	Float64() float64
+}, lo, hi float64) float64 {
 	mid := (lo + hi) / 2
 	switch r.Intn(12) {
 	case 0:
@@ -464,14 +658,16 @@ func genC11(c *Ctx) {
 		L1, L2 = 4, 6
 	}
 	idx := 0
-	enumerate := func(name string, alpha []string, L int) {
+	var enumerateOp func(opName, name string, alpha []string, L int)
+	enumerate := func(name string, alpha []string, L int) { enumerateOp("hist", name, alpha, L) }
+	enumerateOp = func(opName, name string, alpha []string, L int) {
 		truncated := false
 		var rec func(prefix []string)
 		rec = func(prefix []string) {
 			if len(prefix) > 0 {
 				idx++
 				if c.Mine(idx) {
-					c.Case("hist", fmt.Sprintf("%s %d %s", bound, len(prefix), strings.Join(prefix, " ")))
+					c.Case(opName, fmt.Sprintf("%s %d %s", bound, len(prefix), strings.Join(prefix, " ")))
 				}
 			}
 			if len(prefix) == L {
@@ -492,6 +688,32 @@ func genC11(c *Ctx) {
 	}
 	enumerate("full", alpha, L1)
 	enumerate("reduced", small, L2)
+	// (3) the same alphabets, one operation shorter, over the family of Pointer implementations:
+	// uncomparable value structs, a wrapper holding an uncomparable value, nil-able kinds, mixed kinds;
+	// the reduced alphabet gains `Remove(the stored pointer itself, nil)` and a second limited k-nearest
+	// (same limit: the caller's limits slice is passed twice without being stored to in between)
+	smallP := append(append([]string{}, small...), "rs 100 "+fpt(orb.Point{0, 0}), "k "+fpt(orb.Point{5, 5})+" 3 1 0 "+fb(8), "kB "+fpt(orb.Point{0, 0})+" 2 1 0 "+fb(8)+" 0 4")
+	for _, pm := range []string{"P2", "P6", "P7", "M3"} {
+		base := bound
+		bound = pm + " " + base
+		enumerateOp("histP", "full-"+pm, alpha, L1-1)
+		enumerateOp("histP", "reduced-"+pm, smallP, L2-1)
+		bound = base
+	}
+
+	// ---- bulk histories --------------------------------------------------------------------
+	// trees of hundreds to thousands of pointers, k around every power of two and around / above the
+	// tree size: heaps that outgrow any pre-allocation, result buffers of every relation to k
+	if c.Tier == "thorough" {
+		for i := 0; i < 20 && !c.Exhausted(); i++ {
+			genC11Bulk(c, 64, 4100)
+		}
+	} else {
+		genC11Bulk(c, 300, 1100) // every quick shard: at least one tree of more than 300 pointers
+		genC11Bulk(c, 64, 300)
+		genC11Bulk(c, 64, 1100)
+		genC11Bulk(c, 500, []int{1100, 2100, 1100, 4100}[c.Shard%4])
+	}
 
 	// ---- random histories ------------------------------------------------------------------
 	maxOps := 60
@@ -500,6 +722,9 @@ func genC11(c *Ctx) {
 	}
 	third := -1.0 / 3
 	for k := 0; k < c.Budget && !c.Exhausted(); k++ {
+		if r.Intn(400) == 0 {
+			genC11Bulk(c, 64, map[bool]int{false: 1100, true: 4100}[c.Tier == "thorough"])
+		}
 		h := &histGen{c: c}
 		// the tree bound
 		b := c11Bound{orb.Point{-10, -10}, orb.Point{10, 10}, "std"}
@@ -575,6 +800,170 @@ func genC11(c *Ctx) {
 		case 1:
 			ops[r.Intn(n)] = fmt.Sprintf("k %s %s 1 0 -", fpt(h.pt()), []string{"1125899906842624", "9223372036854775807"}[r.Intn(2)])
 		}
-		c.Case("hist", fmt.Sprintf("%s %d %s", b.tok(), n, strings.Join(ops, " ")))
+		if pm := c11PtrModeTok(r); pm != "" {
+			c.Case("histP", fmt.Sprintf("%s %s %d %s", pm, b.tok(), n, strings.Join(ops, " ")))
+		} else {
+			c.Case("hist", fmt.Sprintf("%s %d %s", b.tok(), n, strings.Join(ops, " ")))
+		}
+	}
+}
+
+// c11PtrModeTok draws the pointer kinds of a history: "" = op `hist` (every pointer a *qpt), else the
+// first token of op `histP`.
+func c11PtrModeTok(r interface{ Intn(int) int }) string {
+	switch x := r.Intn(100); {
+	case x < 45:
+		return ""
+	case x < 80:
+		return fmt.Sprintf("P%d", r.Intn(c11PtrKinds))
+	default:
+		return fmt.Sprintf("M%d", r.Intn(c11PtrKinds))
+	}
+}
+
+var c11BulkSizes = []int{64, 65, 66, 100, 127, 128, 129, 130, 200, 255, 256, 257, 258, 300, 400, 511, 512, 513, 514, 700,
+	1000, 1023, 1024, 1025, 1026, 1500, 2047, 2048, 2049, 2050, 3000, 4095, 4096, 4097, 4098}
+
+// c11BulkKs: k around every power of two from 16 to 8192 and around / above the tree size n
+func c11BulkKs(n int) []int {
+	ks := []int{n - 1, n, n + 1, n + 7, 2*n + 3}
+	for j := 4; j <= 13; j++ {
+		for d := -1; d <= 2; d++ {
+			if k := 1<<uint(j) + d; k <= 2*n+8 {
+				ks = append(ks, k)
+			}
+		}
+	}
+	return ks
+}
+
+// genC11Bulk emits one bulk history: a tree grown to N pointers (minN <= N <= maxN, N around a power of
+// two or a round number) on a 1/8 grid (1 in 5: general-position floats), queried with large k at up
+// to four intermediate sizes and at N, then a few removals and queries again.
+func genC11Bulk(c *Ctx, minN, maxN int) {
+	r := c.Rng
+	var cand []int
+	for _, s := range c11BulkSizes {
+		if s >= minN && s <= maxN {
+			cand = append(cand, s)
+		}
+	}
+	N := cand[r.Intn(len(cand))]
+	if r.Intn(3) == 0 && N+3 <= maxN {
+		N += r.Intn(4)
+	}
+	h := &histGen{c: c}
+	lo, hi := orb.Point{-10, -10}, orb.Point{10, 10}
+	if r.Intn(4) == 0 {
+		lo, hi = orb.Point{-3, -7.5}, orb.Point{12, 9}
+	}
+	general := r.Intn(5) == 0
+	pt := func() orb.Point {
+		if general {
+			return orb.Point{lo[0] + r.Float64()*(hi[0]-lo[0]), lo[1] + r.Float64()*(hi[1]-lo[1])}
+		}
+		return orb.Point{lo[0] + float64(r.Intn(int((hi[0]-lo[0])*8)+1))/8, lo[1] + float64(r.Intn(int((hi[1]-lo[1])*8)+1))/8}
+	}
+	var ops []string
+	stored := 0
+	type sp struct {
+		id int
+		p  orb.Point
+	}
+	var live []sp
+	add := func() {
+		h.nextID++
+		p := pt()
+		live = append(live, sp{h.nextID, p})
+		ops = append(ops, fmt.Sprintf("a %d %s", h.nextID, fpt(p)))
+		stored++
+	}
+	lastLim := ""
+	query := func(n int) {
+		ks := c11BulkKs(n)
+		k := ks[r.Intn(len(ks))]
+		if r.Intn(7) == 0 {
+			k = []int{1, 5, 16, 63}[r.Intn(4)]
+		}
+		if k < 1 {
+			k = 1
+		}
+		m := 1
+		if r.Intn(5) < 2 {
+			m = 2 + r.Intn(2)
+		}
+		md := "-"
+		switch x := r.Intn(10); {
+		case x < 6:
+		case x == 6:
+			md = fb(40) // everything
+		case x == 7:
+			md = fb(float64(3+r.Intn(24)) / 2)
+		case x == 8:
+			md = fb(-float64(6+r.Intn(20)) / 2)
+		default:
+			if lastLim != "" {
+				md = lastLim
+			} else {
+				md = fb(9.5)
+			}
+		}
+		if md != "-" {
+			lastLim = md
+		}
+		o := fmt.Sprintf("k %s %d %d %d %s", fpt(pt()), k, m, r.Intn(m), md)
+		switch r.Intn(8) {
+		case 0:
+			o = "kB" + o[1:] + fmt.Sprintf(" 0 %d", k)
+		case 1:
+			o = "kB" + o[1:] + fmt.Sprintf(" 0 %d", k+1)
+		case 2:
+			o = "kB" + o[1:] + fmt.Sprintf(" 2 %d", n+5)
+		case 3:
+			o = "kB" + o[1:] + []string{" 0 63", " 0 64", " 0 65", " 5 300", " 0 0"}[r.Intn(5)]
+		}
+		ops = append(ops, o)
+	}
+	// intermediate sizes at which the growing tree is queried
+	var cps []int
+	for _, s := range c11BulkSizes {
+		if s < N && r.Intn(4) == 0 && len(cps) < 4 {
+			cps = append(cps, s)
+		}
+	}
+	cps = append(cps, N)
+	for _, cp := range cps {
+		for stored < cp {
+			add()
+		}
+		for i := 1 + r.Intn(3); i > 0; i-- {
+			query(cp)
+		}
+	}
+	for i := 2 + r.Intn(4); i > 0; i-- {
+		query(N)
+	}
+	ops = append(ops, fmt.Sprintf("b %s %s 1 0", fpt(lo), fpt(hi)), "f "+fpt(pt()))
+	for i := 3 + r.Intn(5); i > 0 && len(live) > 0; i-- {
+		j := r.Intn(len(live))
+		v := live[j]
+		switch r.Intn(4) {
+		case 0:
+			ops = append(ops, fmt.Sprintf("ri %d %s", v.id, fpt(v.p)))
+		case 1:
+			ops = append(ops, "rp "+fpt(v.p))
+		case 2:
+			ops = append(ops, fmt.Sprintf("rs %d %s", v.id, fpt(v.p)))
+		default:
+			ops = append(ops, fmt.Sprintf("rm %s 2 %d", fpt(pt()), r.Intn(2)))
+		}
+	}
+	for i := 2 + r.Intn(2); i > 0; i-- {
+		query(N)
+	}
+	if pm := c11PtrModeTok(r); pm != "" {
+		c.Case("histP", fmt.Sprintf("%s %s %s %d %s", pm, fpt(lo), fpt(hi), len(ops), strings.Join(ops, " ")))
+	} else {
+		c.Case("hist", fmt.Sprintf("%s %s %d %s", fpt(lo), fpt(hi), len(ops), strings.Join(ops, " ")))
 	}
 }
